@@ -41,11 +41,38 @@ func assignAliasOperator(d *dataTreeNavigator, context Context, expressionNode *
 		}
 
 		if aliasName != "" {
+			// an alias node has to point at its anchor: everything that follows aliases
+			// (explode, the non-yaml encoders, traversal) dereferences that pointer
+			anchorNode := findAnchorInDocument(candidate, aliasName)
+			if anchorNode == nil {
+				return Context{}, fmt.Errorf("cannot set alias to '%v': no such anchor in the document", aliasName)
+			}
 			candidate.Kind = AliasNode
 			candidate.Value = aliasName
+			candidate.Alias = anchorNode
 		}
 	}
 	return context, nil
+}
+
+func findAnchorInDocument(node *CandidateNode, anchor string) *CandidateNode {
+	root := node
+	for root.Parent != nil {
+		root = root.Parent
+	}
+	return findAnchor(root, anchor)
+}
+
+func findAnchor(node *CandidateNode, anchor string) *CandidateNode {
+	if node.Anchor == anchor && node.Kind != AliasNode {
+		return node
+	}
+	for _, child := range node.Content {
+		if found := findAnchor(child, anchor); found != nil {
+			return found
+		}
+	}
+	return nil
 }
 
 func getAliasOperator(_ *dataTreeNavigator, context Context, _ *ExpressionNode) (Context, error) {
